@@ -14,8 +14,10 @@ import (
 	"go/ast"
 	"go/build"
 	"go/format"
+	"go/importer"
 	"go/parser"
 	"go/token"
+	"go/types"
 	"io"
 	"os"
 	"path/filepath"
@@ -57,6 +59,9 @@ var unsupported = map[string]map[string]bool{}
 type options struct {
 	onlyTimeNow bool // go-cache: only time.Now is redirected
 	noChan      bool
+	// chanRanges: ordinals (in source order, among the file's range statements) of the `for ... range ch` loops over a
+	// channel, found by type-checking the package (rangeOverChannels)
+	chanRanges map[int]bool
 }
 
 func fatalf(f string, a ...any) {
@@ -72,6 +77,7 @@ type fileInstr struct {
 	needSch  bool
 	skipComm map[ast.Node]bool
 	doneSend map[ast.Node]bool // send statements that are already in their final form
+	rangeOrd map[*ast.RangeStmt]int
 	path     string
 	opt      options
 	changed  bool
@@ -94,7 +100,7 @@ func instrumentFile(path string, src []byte, opt options) ([]byte, bool, error) 
 	if err != nil {
 		return nil, false, err
 	}
-	fi := &fileInstr{fset: fset, f: f, imports: map[string]string{}, used: map[string]bool{}, skipComm: map[ast.Node]bool{}, doneSend: map[ast.Node]bool{}, path: path, opt: opt}
+	fi := &fileInstr{fset: fset, f: f, imports: map[string]string{}, used: map[string]bool{}, skipComm: map[ast.Node]bool{}, doneSend: map[ast.Node]bool{}, rangeOrd: map[*ast.RangeStmt]int{}, path: path, opt: opt}
 	for _, im := range f.Imports {
 		p := strings.Trim(im.Path.Value, `"`)
 		name := filepath.Base(p)
@@ -112,8 +118,16 @@ func instrumentFile(path string, src []byte, opt options) ([]byte, bool, error) 
 		}
 	}
 
-	// 1. statement-level rewrites (go, select, send)
+	// 1. statement-level rewrites (go, select, send, range over a channel)
 	if !opt.noChan {
+		ord := 0
+		ast.Inspect(f, func(n ast.Node) bool {
+			if r, ok := n.(*ast.RangeStmt); ok {
+				fi.rangeOrd[r] = ord
+				ord++
+			}
+			return true
+		})
 		ast.Inspect(f, func(n ast.Node) bool {
 			switch x := n.(type) {
 			case *ast.BlockStmt:
@@ -332,6 +346,32 @@ func (fi *fileInstr) rewriteStmt(s ast.Stmt) ast.Stmt {
 			return goCall
 		}
 		return &ast.BlockStmt{Lbrace: pos, List: append(pre, goCall)}
+	case *ast.RangeStmt:
+		// for v := range ch { body }  =>  for _vrN := ch; ; { v, _vokN := <-vsched.RecvCh(_vrN); if !_vokN { break }; body }
+		// (a for statement again, so a label and the body's break / continue keep their meaning)
+		if !fi.opt.chanRanges[fi.rangeOrd[x]] || x.Value != nil {
+			return nil
+		}
+		fi.tmpN++
+		ch := ast.NewIdent(fmt.Sprintf("_vr%d", fi.tmpN))
+		okv := ast.NewIdent(fmt.Sprintf("_vok%d", fi.tmpN))
+		recv := &ast.UnaryExpr{OpPos: x.Pos(), Op: token.ARROW, X: ast.NewIdent(ch.Name)}
+		var first []ast.Stmt
+		lhs0 := ast.Expr(ast.NewIdent("_"))
+		if x.Key != nil {
+			lhs0 = x.Key
+		}
+		if x.Key != nil && x.Tok == token.ASSIGN {
+			first = append(first, &ast.DeclStmt{Decl: &ast.GenDecl{Tok: token.VAR, Specs: []ast.Spec{&ast.ValueSpec{Names: []*ast.Ident{ast.NewIdent(okv.Name)}, Type: ast.NewIdent("bool")}}}})
+			first = append(first, &ast.AssignStmt{Lhs: []ast.Expr{lhs0, ast.NewIdent(okv.Name)}, Tok: token.ASSIGN, Rhs: []ast.Expr{recv}})
+		} else {
+			first = append(first, &ast.AssignStmt{Lhs: []ast.Expr{lhs0, ast.NewIdent(okv.Name)}, Tok: token.DEFINE, Rhs: []ast.Expr{recv}})
+		}
+		first = append(first, &ast.IfStmt{If: x.Pos(), Cond: &ast.UnaryExpr{Op: token.NOT, X: ast.NewIdent(okv.Name)}, Body: &ast.BlockStmt{List: []ast.Stmt{&ast.BranchStmt{Tok: token.BREAK}}}})
+		x.Body.List = append(first, x.Body.List...)
+		fi.changed = true
+		fi.used["verif/vsched"] = true
+		return &ast.ForStmt{For: x.For, Init: &ast.AssignStmt{Lhs: []ast.Expr{ch}, Tok: token.DEFINE, Rhs: []ast.Expr{x.X}}, Body: x.Body}
 	case *ast.SendStmt:
 		// ch <- v  =>  { vsched.SendCh(ch) <- v; vsched.SendDone() }   (SendDone parks the sender of an unbuffered channel)
 		if fi.doneSend[x] {
@@ -518,6 +558,63 @@ func copyTree(dst, src string, skip func(string) bool) error {
 	})
 }
 
+// rangeOverChannels finds the `for [v] := range x` statements whose x is a channel. A syntactic rewriter cannot tell
+// them from ranges over slices, maps or integers, so packages that contain a candidate (a range statement without a
+// second iteration variable) are type-checked (go/types, dependencies from source). The result maps file -> ordinals of
+// its channel ranges among its range statements. Type errors do not stop the build: what could be typed is used.
+var srcImporter types.Importer
+
+func rangeOverChannels(dir string, paths []string) map[string]map[int]bool {
+	fset := token.NewFileSet()
+	var files []*ast.File
+	cand := false
+	for _, p := range paths {
+		f, err := parser.ParseFile(fset, p, nil, parser.SkipObjectResolution)
+		if err != nil {
+			return nil
+		}
+		files = append(files, f)
+		ast.Inspect(f, func(n ast.Node) bool {
+			if r, ok := n.(*ast.RangeStmt); ok && r.Value == nil {
+				switch r.X.(type) {
+				case *ast.BasicLit, *ast.CompositeLit:
+				default:
+					cand = true
+				}
+			}
+			return true
+		})
+	}
+	if !cand {
+		return nil
+	}
+	if srcImporter == nil {
+		srcImporter = importer.ForCompiler(token.NewFileSet(), "source", nil)
+	}
+	info := &types.Info{Types: map[ast.Expr]types.TypeAndValue{}}
+	conf := types.Config{Importer: srcImporter, Error: func(error) {}}
+	conf.Check(dir, fset, files, info)
+	out := map[string]map[int]bool{}
+	for i, f := range files {
+		ord := 0
+		ast.Inspect(f, func(n ast.Node) bool {
+			if r, ok := n.(*ast.RangeStmt); ok {
+				if tv, ok := info.Types[r.X]; ok && tv.Type != nil {
+					if _, isCh := tv.Type.Underlying().(*types.Chan); isCh {
+						if out[paths[i]] == nil {
+							out[paths[i]] = map[int]bool{}
+						}
+						out[paths[i]][ord] = true
+					}
+				}
+				ord++
+			}
+			return true
+		})
+	}
+	return out
+}
+
 func main() {
 	repo := flag.String("repo", "/repo", "repository working tree")
 	out := flag.String("out", "", "output directory")
@@ -534,6 +631,7 @@ func main() {
 	nfiles, nchanged := 0, 0
 	for _, pkg := range instrumentedPkgs {
 		dir := filepath.Join(absRepo, pkg)
+		chanRanges := rangeOverChannels(dir, goFilesOf(dir))
 		for _, path := range goFilesOf(dir) {
 			nfiles++
 			src, err := os.ReadFile(path)
@@ -558,7 +656,7 @@ func main() {
 					changedByPrologue = true
 				}
 			}
-			res, changed, err := instrumentFile(path, src, options{})
+			res, changed, err := instrumentFile(path, src, options{chanRanges: chanRanges[path]})
 			if err != nil {
 				fatalf("%v", err)
 			}
